@@ -61,6 +61,7 @@ type vsCountingStore struct {
 	opened int
 	closed int
 	live   []*vsCountedAcc
+	delay  time.Duration // the next look-up takes this long
 }
 
 // closeLeftovers closes what the code under test failed to close (after it was judged), so that
@@ -91,6 +92,19 @@ func (a *vsCountedAcc) Close() error {
 }
 
 func (c *vsCountingStore) GetByHeight(ctx context.Context, h uint64) (eds.AccessorStreamer, error) {
+	c.mu.Lock()
+	d := c.delay
+	c.delay = 0
+	c.mu.Unlock()
+	if d > 0 {
+		// a slow store look-up (cold disk): longer than the write timeout, shorter than the time a
+		// request may take altogether
+		select {
+		case <-time.After(d):
+		case <-ctx.Done():
+			return nil, ctx.Err()
+		}
+	}
 	acc, err := c.inner.GetByHeight(ctx, h)
 	if err != nil {
 		return nil, err
@@ -386,7 +400,7 @@ func vsServerWorld(s *verifsim.Sim, dir string) {
 	sp := DefaultServerParameters()
 	sp.WithNetworkID("verif")
 	sp.ReadTimeout = 5 * time.Second
-	sp.WriteTimeout = 20 * time.Second
+	sp.WriteTimeout = 8 * time.Second
 	sp.HandleRequestTimeout = 20 * time.Second
 	srv, err := NewServer(sp, srvHost, cst)
 	if err != nil {
@@ -414,6 +428,7 @@ func vsServerWorld(s *verifsim.Sim, dir string) {
 		stallMid := []time.Duration{0, time.Second, 6 * time.Second}[s.ChooseW([]int{6, 2, 1}, "stall_mid_write")]
 		after := s.ChooseW([]int{8, 1, 1, 1}, "after_write") // 0 close write, 1 nothing, 2 reset, 3 full close
 		readMode := s.ChooseW([]int{8, 2, 1}, "read_mode")   // 0 at once, 1 slowly, 2 never
+		slowLookup := s.Chance(1, 6, "slow_store_lookup")
 		name := fmt.Sprintf("req%d", i)
 		s.Go(name, func() {
 			sq := heights[req.height]
@@ -428,6 +443,14 @@ func vsServerWorld(s *verifsim.Sim, dir string) {
 			}
 			defer str.Reset() //nolint:errcheck
 			tOpen := time.Now()
+			lookupTakes := time.Duration(0)
+			if slowLookup {
+				s.Fault("slow-store-lookup")
+				lookupTakes = 11 * time.Second
+				cst.mu.Lock()
+				cst.delay = lookupTakes
+				cst.mu.Unlock()
+			}
 			if split > 0 {
 				_, _ = str.Write(req.raw[:split])
 				s.Yield(name + " mid-write")
@@ -479,7 +502,7 @@ func vsServerWorld(s *verifsim.Sim, dir string) {
 			}
 			payload, rerr := io.ReadAll(rd)
 			// a client that took longer than the server's write timeout to drain the response may see it cut
-			slowDrain := readMode != 0 || time.Since(tOpen) >= sp.WriteTimeout/2
+			slowDrain := readMode != 0 || time.Since(tOpen) >= lookupTakes+sp.WriteTimeout/2
 			switch resp.Status {
 			case shrexpb.Status_OK:
 				if !req.valid {
